@@ -3,7 +3,11 @@ module verif/harness
 go 1.23.7
 
 require (
+	github.com/fxamacker/cbor/v2 v2.8.0
+	github.com/go-chi/chi/v5 v5.2.1
 	github.com/smallstep/certificates v0.0.0
+	github.com/smallstep/linkedca v0.23.0
+	github.com/smallstep/nosql v0.7.0
 	go.step.sm/crypto v0.60.0
 	golang.org/x/crypto v0.37.0
 	golang.org/x/net v0.39.0
@@ -33,6 +37,9 @@ require (
 	github.com/golang/glog v1.2.4 // indirect
 	github.com/golang/protobuf v1.5.4 // indirect
 	github.com/golang/snappy v0.0.4 // indirect
+	github.com/google/certificate-transparency-go v1.1.7 // indirect
+	github.com/google/go-tpm v0.9.3 // indirect
+	github.com/google/go-tspi v0.3.0 // indirect
 	github.com/google/uuid v1.6.0 // indirect
 	github.com/huandu/xstrings v1.5.0 // indirect
 	github.com/jackc/pgpassfile v1.0.0 // indirect
@@ -51,15 +58,17 @@ require (
 	github.com/russross/blackfriday/v2 v2.1.0 // indirect
 	github.com/shopspring/decimal v1.4.0 // indirect
 	github.com/shurcooL/sanitized_anchor_name v1.0.0 // indirect
+	github.com/sirupsen/logrus v1.9.3 // indirect
 	github.com/slackhq/nebula v1.9.5 // indirect
 	github.com/smallstep/cli-utils v0.12.1 // indirect
-	github.com/smallstep/linkedca v0.23.0 // indirect
-	github.com/smallstep/nosql v0.7.0 // indirect
+	github.com/smallstep/go-attestation v0.4.4-0.20240109183208-413678f90935 // indirect
 	github.com/smallstep/pkcs7 v0.2.1 // indirect
 	github.com/smallstep/scep v0.0.0-20240926084937-8cf1ca453101 // indirect
 	github.com/spf13/cast v1.7.0 // indirect
 	github.com/urfave/cli v1.22.16 // indirect
+	github.com/x448/float16 v0.8.4 // indirect
 	go.etcd.io/bbolt v1.3.10 // indirect
+	golang.org/x/exp v0.0.0-20240531132922-fd00a4e0eefc // indirect
 	golang.org/x/oauth2 v0.28.0 // indirect
 	golang.org/x/sync v0.13.0 // indirect
 	golang.org/x/sys v0.32.0 // indirect
